@@ -55,6 +55,7 @@ fn run_plan_ctx(plan: &Plan, ctx_in: &mut Ctx) -> RunReport {
         },
         "text" => for_width!(plan.bits, run_text(&mut ctx, plan)),
         "entropy" => for_width!(plan.bits, run_entropy(&mut ctx, plan)),
+        "history" => for_width!(plan.bits, run_history(&mut ctx, plan)),
         other => ctx.violate("HARNESS", format!("unknown arm {other}")),
     }
     let (signature, nontrivial) = signature(plan, &ctx);
@@ -131,7 +132,15 @@ fn signature(plan: &Plan, ctx: &Ctx) -> (u64, bool) {
             _ => 3,
         });
     }
-    if plan.arm == "pipeline" {
+    if plan.arm == "history" {
+        // the set of operations applied (order-insensitive) is the state measure of this arm
+        let mut ops: Vec<u64> = plan.aux.chunks(4).map(|c| c[0] % crate::history::NOPS).collect();
+        ops.sort_unstable();
+        ops.dedup();
+        for o in ops {
+            d.u64(o);
+        }
+    } else if plan.arm == "pipeline" {
         d.u64(plan.aux(0));
         d.u64(plan.aux(1));
     } else {
@@ -729,4 +738,8 @@ pub fn leak_label(s: &str) -> &'static str {
 
 fn run_entropy<const B: usize, const L: usize>(ctx: &mut Ctx, plan: &Plan) {
     crate::entropy::run::<B, L>(ctx, plan);
+}
+
+fn run_history<const B: usize, const L: usize>(ctx: &mut Ctx, plan: &Plan) {
+    crate::history::run::<B, L>(ctx, plan);
 }
